@@ -169,7 +169,7 @@ def _run_vc(args):
                 # quantifier-free attempt: quantified hypotheses dropped (weakening), the sidecar's explicit instances added
                 qf = [h for h in fmls if not ip.has_quantifier(h)]
                 if len(qf) < len(fmls):
-                    r0 = solve.check_unsat(qf + list(insts) + [z3.Not(goal)], timeout_ms=min(to, 10000), cvc5_fallback=False, want_model=False)
+                    r0 = solve.check_unsat(qf + list(insts) + [z3.Not(goal)], timeout_ms=to, cvc5_fallback=False, want_model=False)
                     if r0.status == "unsat":
                         r = solve.Result("unsat", "z3[explicit instances]", r0.ms)
                     if r is None:
